@@ -557,7 +557,9 @@ class DecimalFactory(decimal.Decimal):
         # Define the quantization factor safely
         # Limit scale to avoid InvalidOperation errors
         safe_scale = min(self.scale, 28)  # Python's decimal has max ~28 digits precision
-        factor = decimal.Decimal("10") ** -safe_scale
+        # built from its parts: `Decimal("10") ** -safe_scale` is computed in the calling thread's
+        # ambient decimal context and underflows there when that context has a narrow exponent range
+        factor = decimal.Decimal((0, (1,), -safe_scale))
 
         # Perform quantization with proper error handling
         try:
